@@ -106,6 +106,14 @@ fn demo(which: &str) -> i32 {
                        if c != 5.0 { println!("D5c MANIFESTS: objective row is COST with RHS -5, objective constant should be 5, got {c}"); 1 } else { println!("D5c ok"); 0 } }
             }
         }
+        // D14 (C17): an RHS entry for a row that ROWS does not declare is an error (it was dropped silently, the intended row kept RHS 0)
+        "D14" => {
+            let mps = "NAME t\nROWS\n N COST\n L LIM1\nCOLUMNS\n    X COST 1 LIM1 1\nRHS\n    RHS LIM_1 4\nENDATA\n";
+            match ommx::mps::load_raw_reader(mps.as_bytes()) {
+                Ok(m) => { println!("D14 MANIFESTS: `RHS LIM_1 4` names a row that ROWS does not declare (LIM1 is declared); the file was accepted with {} constraint(s) and the RHS dropped", m.constraints.len()); 1 }
+                Err(e) => { println!("D14 ok (rejected: {e})"); 0 }
+            }
+        }
         // D6 (C19): diagonal entries of the lower triangle of Q0 enter 1/2 x'Qx with factor 1/2
         "D6" => {
             let q = "t\nQCN\nminimize\n2\n2\n1 1 4.0\n2 1 3.0\n0.0\n0\n0.0\n1e30\n-10.0\n0\n10.0\n0\n0.0\n0\n0.0\n0\n0\n0\n";
@@ -203,6 +211,6 @@ fn main() {
             }
         }
     }
-    println!("usage: rx bounded <Cxx> | rx demo <D1|D2|D3|D7|D13|D13u|D5a|D5b|D5c|D5d|D6|O1|O2>");
+    println!("usage: rx bounded <Cxx> | rx demo <D1|D2|D3|D7|D13|D13u|D5a|D5b|D5c|D5d|D6|D14|O1|O2>");
     std::process::exit(2);
 }
